@@ -1,4 +1,3 @@
-import string
 from xml.etree import ElementTree
 from xml.etree.ElementTree import Element
 from xml.dom import minidom
@@ -71,7 +70,7 @@ def _get_attributes(feature: Feature) -> dict[str, str]:
         atributes['mandatory'] = 'true'
     if feature.is_abstract:
         atributes['abstract'] = 'true'
-    atributes['name'] = safename(feature.name)
+    atributes['name'] = feature.name
     return atributes
 
 
@@ -117,7 +116,7 @@ def _get_ctc_info(ast_node: Node) -> dict[str, Any]:
     ctc_info: dict[str, Any] = {}
     if ast_node.is_term():
         ctc_info['type'] = FeatureIDEReader.TAG_VAR
-        ctc_info['operands'] = [safename(str(ast_node.data))]
+        ctc_info['operands'] = [str(ast_node.data)]
     else:
         ctc_info['type'] = FeatureIDEWriter.CTC_TYPES[ast_node.data]
         operands = []
@@ -135,10 +134,3 @@ def prettify(xml: str) -> bytes:
     reparsed = minidom.parseString(xml)
     return reparsed.toprettyxml(indent="\t", encoding='UTF-8')
 
-
-def safename(name: str) -> str:
-    return f'"{name}"' if any(char not in safecharacters() for char in name) else name
-
-
-def safecharacters() -> str:
-    return string.ascii_letters + string.digits + '_'
